@@ -90,6 +90,15 @@ type vmgrActor struct {
 
 // ---- world -----------------------------------------------------------------------------------
 
+// patience for things that normally take microseconds (a closed poller's loop closing its descriptors,
+// a probe's answer, a Pick returning).  Generous, because the machine may be heavily loaded; after the
+// first expiry in this process (a finding is reported anyway) the remaining waits are short.
+var vmgrPatience = 20 * time.Second
+
+func vmgrExpired() {
+	vmgrPatience = 300 * time.Millisecond
+}
+
 type vmgrWorld struct {
 	m      *manager
 	known  []*defaultPoll // id = index, in order of first appearance in m.polls
@@ -215,7 +224,7 @@ func (w *vmgrWorld) refresh() {
 			continue
 		}
 		w.waited[id] = true
-		dl := time.Now().Add(2 * time.Second)
+		dl := time.Now().Add(vmgrPatience)
 		for {
 			// the loop closes the eventfd first and the epoll descriptor last
 			if !vmgrIsEpollFD(p.fd) {
@@ -223,6 +232,7 @@ func (w *vmgrWorld) refresh() {
 				break
 			}
 			if time.Now().After(dl) {
+				vmgrExpired()
 				break
 			}
 			time.Sleep(50 * time.Microsecond)
@@ -294,7 +304,8 @@ func vmgrProbe(p *defaultPoll) bool {
 	select {
 	case <-ch:
 		ok = true
-	case <-time.After(time.Second):
+	case <-time.After(vmgrPatience):
+		vmgrExpired()
 	}
 	p.Control(op, PollDetach)
 	runtime.KeepAlive(op)
@@ -312,7 +323,7 @@ func (w *vmgrWorld) aliveList() string {
 	return strings.Join(ss, ",")
 }
 
-// one Pick with panic capture.  A Pick that does not return within 3 s is reported as "hang"; the
+// one Pick with panic capture.  A Pick that does not return within vmgrPatience is reported as "hang"; the
 // spinning goroutine is then released by forcing status=initialized in-package (the scenario is over).
 func (w *vmgrWorld) safePick() (p Poll, pmsg string) {
 	type res struct {
@@ -334,7 +345,8 @@ func (w *vmgrWorld) safePick() (p Poll, pmsg string) {
 	select {
 	case r := <-ch:
 		return r.p, r.m
-	case <-time.After(3 * time.Second):
+	case <-time.After(vmgrPatience):
+		vmgrExpired()
 		w.dead = true
 		atomic.StoreInt32(&m.status, managerInitialized)
 		select {
@@ -365,7 +377,7 @@ func (w *vmgrWorld) cleanup() {
 			w.m.Close()
 		}()
 		// wait for the loops to close their descriptors so the next scenario's census base is stable
-		dl := time.Now().Add(2 * time.Second)
+		dl := time.Now().Add(vmgrPatience)
 		for time.Now().Before(dl) {
 			all := true
 			for id, p := range w.known {
@@ -435,6 +447,11 @@ func (w *vmgrWorld) exec(toks []string, rng *rand.Rand) (opOut string, rep strin
 		}
 		return op, "norr ## " + w.dump()
 	case "pick":
+		if atomic.LoadInt32(&w.m.status) == managerInitializing {
+			// nobody is inside Run (no Pick is in flight): this Pick would spin for ever
+			w.dead = true
+			return "pick r=0", "hang"
+		}
 		p, pmsg := w.safePick()
 		ev := "panic"
 		r := 0
@@ -457,6 +474,10 @@ func (w *vmgrWorld) exec(toks []string, rng *rand.Rand) (opOut string, rep strin
 	case "cphase": // K truly concurrent picks
 		k := atoi(toks[1])
 		seed := int64(atoi(toks[2]))
+		if atomic.LoadInt32(&w.m.status) == managerInitializing {
+			w.dead = true
+			return fmt.Sprintf("cphase %d %d", k, seed), "hang"
+		}
 		res := make([]Poll, k)
 		msgs := make([]string, k)
 		skew := make([]int, k)
@@ -484,7 +505,7 @@ func (w *vmgrWorld) exec(toks []string, rng *rand.Rand) (opOut string, rep strin
 		go func() { wg.Wait(); close(fin) }()
 		select {
 		case <-fin:
-		case <-time.After(20 * time.Second):
+		case <-time.After(4 * vmgrPatience):
 			w.dead = true
 			return fmt.Sprintf("cphase %d %d", k, seed), "hang"
 		}
@@ -604,7 +625,7 @@ func (s *vmgrSched) await(a *vmgrActor) bool {
 	case <-a.done:
 		a.finished = true
 		return true
-	case <-time.After(10 * time.Second):
+	case <-time.After(3 * vmgrPatience):
 		return false
 	}
 }
@@ -677,7 +698,7 @@ func (s *vmgrSched) step(a *vmgrActor, fail bool) bool {
 	if ok && (site == vmgrSiteRClose || site == vmgrSiteMClose) {
 		// Close() only asks the loop to exit; give the loop (up to 2 s) to close its descriptors so
 		// that the dump after this step is deterministic
-		dl := time.Now().Add(2 * time.Second)
+		dl := time.Now().Add(vmgrPatience)
 		for vmgrCensus() >= c0 && time.Now().Before(dl) {
 			time.Sleep(20 * time.Microsecond)
 		}
@@ -787,7 +808,11 @@ func vmgrGenSeq(w *vmgrWorld, out *vmgrOut, rng *rand.Rand, nops int) {
 	do("new %d", n0)
 	bigs := []uint64{1<<63 - 1, 1<<63 - 2, 1<<63 - 5, 1 << 63, 1<<64 - 1, 1<<64 - 3, 1 << 62}
 	wrapScn := rng.Intn(6) == 0
+	closedAt := -1
 	for i := 0; i < nops && !w.dead; i++ {
+		if closedAt >= 0 && i > closedAt+4 {
+			break
+		}
 		switch x := rng.Intn(100); {
 		case x < 45:
 			do("pick")
@@ -814,9 +839,12 @@ func vmgrGenSeq(w *vmgrWorld, out *vmgrOut, rng *rand.Rand, nops int) {
 		case x < 97:
 			if i > nops*2/3 {
 				do("close")
+				closedAt = i
 			}
 		default:
-			do("cphase %d %d", 1+rng.Intn(6), rng.Intn(1<<30))
+			if closedAt < 0 {
+				do("cphase %d %d", 1+rng.Intn(6), rng.Intn(1<<30))
+			}
 		}
 	}
 }
@@ -1031,7 +1059,7 @@ func vmgrDetectHooks() bool {
 	VmgrHook = nil
 	ps := append([]Poll(nil), m.polls...)
 	m.Close()
-	dl := time.Now().Add(2 * time.Second)
+	dl := time.Now().Add(vmgrPatience)
 	for _, p := range ps {
 		for dp, ok := p.(*defaultPoll); ok && vmgrIsEpollFD(dp.fd) && time.Now().Before(dl); {
 			time.Sleep(50 * time.Microsecond)
